@@ -47,6 +47,11 @@ ben("report_writes_temp_then_renames_and_keeps_log", ["C16", "C12"], "atomic rep
       "            file.write(f\"Total time              : {total_time}\\n\")\n    os.replace(f\"outputs/{file_name}.txt.part\", f\"outputs/{file_name}.txt\")\n")])
 
 
+ben("paths_relative_to_script_directory", ["C16", "C12", "C11", "C17"], "outputs/ and inputs/ located next to the program file instead of the working directory (the same place in `cd repo && python tool.py`)",
+    [("conditionalrewards.py", "    with open(f\"outputs/{file_name}.txt\", \"w\") as file:", "    import os\n    here = os.path.dirname(os.path.abspath(__file__))\n    with open(os.path.join(here, \"outputs\", f\"{file_name}.txt\"), \"w\") as file:"),
+     ("roberta_generator.py", "    my_file = open(file_name, \"w\")\n", "    import os\n    my_file = open(os.path.join(os.path.dirname(os.path.abspath(__file__)), file_name), \"w\")\n")])
+
+
 def main():
     os.makedirs(OUT, exist_ok=True)
     for name, props, why, edits in B:
